@@ -1,4 +1,5 @@
 import DvidModel.Lemmas.Key
+import DvidModel.Props.C12
 /-
   C06 — Storage keys isolate data instances, data and versions.
   Property theorems only.  All ids range over the full 32-bit space (`U32 n := n < 2^32`, including 0
@@ -258,5 +259,14 @@ theorem later_datum_beyond_bracket (i v' c' : Nat) (tk tk' : Bytes) (m' : Bool) 
   rw [dataKey_eq, maxVersionKey_eq]
   simp only [List.append_assoc, cmpBytes_append_left]
   rw [(cmpBytes_append_noPrefix hp _ _).1]; exact hgt
+
+/-- a new data instance never receives the id of a live instance, however far the stored id counter lags behind
+    (concurrent requests store the counters out of order): instance ids stay distinct, and with them — by the key
+    layout theorems above — the storage of two instances stays disjoint.  The re-draw in `newInstanceID` is
+    regenerated from the source (C12.drawInstance_fresh). -/
+theorem new_instance_id_not_live (live : List Nat) (ctr fuel : Nat)
+    (hf : Dvid.Props.C12.sup live + 1 ≤ ctr + fuel) :
+    Dvid.Props.C12.drawInstance Gen.newInstanceIdSkipsLiveIds live ctr fuel ∉ live :=
+  Dvid.Props.C12.drawInstance_fresh live ctr fuel hf
 
 end Dvid.Props.C06
